@@ -89,7 +89,10 @@ def _fit_cases(tier, rng):
     import formulas.cell     # noqa: F401
     # results of formulas are Array views; plain ndarrays pushed as *inputs* get #VALUE! on a shape mismatch by design
     kinds = ['Array.reshape', 'Ranges.set_value(Array)', 'cell-formula']
-    return [(k, v, d) for k in kinds for v in SHAPES for d in SHAPES]
+    out = [(k, v, d) for k in kinds for v in SHAPES for d in SHAPES]
+    # a plain array pushed as an input is fitted like a result as long as nothing has to be dropped
+    out += [('Ranges.set_value(array)', v, d) for v in SHAPES for d in SHAPES if v[0] <= d[0] and v[1] <= d[1]]
+    return out
 
 
 def _classify_fit(case, detail):
@@ -238,7 +241,7 @@ PROPERTIES = {
         explanation=('Proved: fitting - Array.reshape on the real body for 8 source shapes x 9 destination shapes (68 pairs; numpy executed as the '
                      'container, all element values): a scalar fills, a single row / column repeats along the other dimension, surplus is dropped, '
                      'unreached cells hold #N/A; get_shape (and _shape under C06). Bounded: fitting of every value shape into every destination '
-                     'shape (m,n <= 4) through five routes, and element-wise lifting of 14 operators / functions over all broadcastable shape '
+                     'shape (m,n <= 4) through four routes, and element-wise lifting of 14 operators / functions over all broadcastable shape '
                      'combinations and argument counts 1..40, against the scalar rule applied per position.'),
         assumptions=['numpy slicing / broadcast assignment / resize behave as in the installed numpy (they are executed, not modelled)'],
         not_proved=['lifting through np.vectorize and the >= 32-argument path; Ranges.set_value / _reshape_array_as_excel routes: bounded stage only',
